@@ -330,3 +330,67 @@ Definition pool_done (s : pool) : Prop := queue s = [] /\ held_lines (held s) = 
 
 (** well-formed test strings: Unicode scalar range *)
 Definition wf_input (v : val) : Prop := Forall (Forall (fun c => c < 1114112)) (in_tests v).
+
+(** ** The incremental statistics of the implementation ([update_stats]),
+    transcribed per changed word.  [old_scan]: the pairs whose statistics are
+    decremented while walking the old word ([prev] = token in front of the
+    current position); [new_scan]: the pairs incremented while walking the new
+    word.  Frequencies are abstracted to total functions [pair -> N] (absent key
+    = 0); [N.sub] is truncated like [saturating_sub]. *)
+Definition starts_match (p : pair) (s : word) : bool :=
+  match s with a :: b :: _ => tok_eqb a (fst p) && tok_eqb b (snd p) | _ => false end.
+Definition bpair (prev : option token) (a : token) : list pair :=
+  match prev with Some z => [(z, a)] | None => [] end.
+(** the pair after a match at [.. b] [r]: decremented unless the next match starts there
+    ([i < len-2 && (old[i+2] != first || i >= len-3 || old[i+3] != second)]) *)
+Definition next_old (p : pair) (b : token) (r : word) : list pair :=
+  match r with [] => [] | c :: _ => if starts_match p r then [] else [(b, c)] end.
+Fixpoint old_scan (p : pair) (prev : option token) (w : word) : list pair :=
+  match w with
+  | [] => []
+  | a :: t =>
+    match t with
+    | b :: r => if tok_eqb a (fst p) && tok_eqb b (snd p)
+                then bpair prev a ++ next_old p b r ++ old_scan p (Some b) r
+                else old_scan p (Some a) t
+    | [] => []
+    end
+  end.
+(** the pair after a merged token: incremented unless the next token is merged too
+    ([i < len-1 && new[i+1] != merged]) *)
+Definition next_new (m : token) (a : token) (t : word) : list pair :=
+  match t with [] => [] | b :: _ => if tok_eqb b m then [] else [(a, b)] end.
+Fixpoint new_scan (m : token) (prev : option token) (w : word) : list pair :=
+  match w with
+  | [] => []
+  | a :: t => if tok_eqb a m then bpair prev a ++ next_new m a t ++ new_scan m (Some a) t
+              else new_scan m (Some a) t
+  end.
+
+Definition fstats := pair -> N.
+Definition fupd (F : fstats) (q : pair) (v : N) : fstats := fun x => if pair_eqb x q then v else F x.
+Definition sub_all (l : list pair) (k : N) (F : fstats) : fstats := fold_left (fun F q => fupd F q (F q - k)) l F.
+Definition add_all (l : list pair) (k : N) (F : fstats) : fstats := fold_left (fun F q => fupd F q (F q + k)) l F.
+(** one entry of [changes]: old word, new word, word count [k] *)
+Definition upd_word (p : pair) (w : word) (k : N) (F : fstats) : fstats :=
+  add_all (new_scan (merge p) None (replace_in_word p w)) k (sub_all (old_scan p None w) k F).
+(** [replace_pair] + [update_stats]: the merged pair is set to 0, then only the
+    words whose occurrence count for the pair is >= 1 are visited *)
+Definition upd_freq (c : corpus) (p : pair) (F : fstats) : fstats :=
+  fold_left (fun F wk => if 0 <? count_pair p (word_pairs (fst wk)) then upd_word p (fst wk) (snd wk) F else F)
+            c (fupd F p 0).
+Definition upd_vocab (c : corpus) (p : pair) : corpus :=
+  map (fun wk => if 0 <? count_pair p (word_pairs (fst wk)) then (replace_in_word p (fst wk), snd wk) else wk) c.
+
+(** the merged token is new: no token of the corpus spells it (this is what
+    distinct spellings of the table entries amount to), tokens are non-empty *)
+Definition Fresh (c : corpus) (p : pair) : Prop :=
+  fst p <> [] /\ snd p <> [] /\ forall w k, In (w, k) c -> ~ In (merge p) w.
+
+(** runs of the incremental trainer: the loop of [train_bpe] on (vocabulary,
+    statistics), choosing any pair whose recorded frequency is positive and maximal *)
+Inductive IRun : corpus -> fstats -> nat -> list pair -> Prop :=
+| IRun_budget : forall c F, IRun c F 0 []
+| IRun_exhausted : forall c F k, (forall q, F q = 0) -> IRun c F k []
+| IRun_step : forall c F k p ps, 0 < F p -> (forall q, F q <= F p) ->
+    IRun (upd_vocab c p) (upd_freq c p F) k ps -> IRun c F (S k) (p :: ps).
